@@ -18,7 +18,7 @@ pub enum Status {
 	Run,                    // being polled / waiting for an invisible step (file, hook, socket)
 	AtAcquire(usize, bool), // yielded right before acquiring lock (id, write)
 	RespHeld(usize),        // its request reached the CA, the response (choice point) is held
-	WaitingWrite(usize),    // a writer that has announced itself (async-lock's WRITER_BIT): new readers wait
+	WaitingWrite(usize), // a writer that has announced itself (async-lock's WRITER_BIT): new readers wait
 	Done,
 }
 
@@ -131,13 +131,16 @@ pub fn blocked(id: usize, write: bool) {
 			// writer bit and waits for the readers to leave; from then on new readers wait too
 			let l = s.locks.entry(id).or_default();
 			if l.writer || (l.writer_waiting.is_some() && l.writer_waiting != Some(t)) {
-				s.blocked_unexpected.push(format!("task {t} started to wait for lock {id} behind another writer"));
+				s.blocked_unexpected.push(format!(
+					"task {t} started to wait for lock {id} behind another writer"
+				));
 			}
 			l.writer_waiting = Some(t);
 			s.status[t] = Status::WaitingWrite(id);
 		} else {
 			// the scheduler only lets a reader go on when no writer holds or awaits the lock
-			s.blocked_unexpected.push(format!("task {t} blocked on lock {id} (read)"));
+			s.blocked_unexpected
+				.push(format!("task {t} blocked on lock {id} (read)"));
 		}
 	});
 }
